@@ -533,7 +533,7 @@ SPELLINGS = {True: ["method", "func", "ufunc", "npfunc", "reduce"], False: ["ufu
 
 def api_cases(tier, rng):
     cases = []
-    rounds = 4 if tier == "quick" else 40
+    rounds = 3 if tier == "quick" else 40
     ufs = list(UF)
     k = 0
     for ndim in range(0, 5):
